@@ -375,6 +375,12 @@ class SATEncoder:
         if n == 0:
             return
 
+        # Successors are node indices 0..n-1
+        for var in variables:
+            for val, lit in var.bool_vars.items():
+                if not 0 <= val < n:
+                    self._clauses.append([-lit])
+
         # All different
         self._encode_all_different(variables)
 
@@ -386,21 +392,20 @@ class SATEncoder:
         if n <= 1:
             return
 
-        # Subtour elimination using MTZ formulation
-        t = [self._create_int_var(0 if i == 0 else 1, n - 1) for i in range(n)]
-        # t[0] is fixed to 0
-        self._clauses.append([t[0].bool_vars[0]])
+        # Subtour elimination using MTZ formulation: t[i] = position of node i, t[0] = 0
+        t = [self._create_int_var(0, 0) if i == 0 else self._create_int_var(1, n - 1) for i in range(n)]
+        for order_var in t:
+            # Created after _encode_vars ran, so they need their own exactly-one
+            self._encode_exactly_one(list(order_var.bool_vars.values()))
 
         # For each edge i -> j (j != 0): t[j] >= t[i] + 1
         for i, var in enumerate(variables):
             for j in range(1, n):
                 if j in var.bool_vars:
-                    for ti in range(var.lb, var.ub + 1):
-                        if ti not in t[i].bool_vars:
-                            continue
-                        for tj in range(t[j].lb, ti + 1):
-                            if tj in t[j].bool_vars:
-                                self._clauses.append([-var.bool_vars[j], -t[i].bool_vars[ti], -t[j].bool_vars[tj]])
+                    for ti, ti_lit in t[i].bool_vars.items():
+                        for tj, tj_lit in t[j].bool_vars.items():
+                            if tj <= ti:
+                                self._clauses.append([-var.bool_vars[j], -ti_lit, -tj_lit])
 
     def _encode_no_overlap(self, starts: tuple["IntVar", ...], durations: tuple[int, ...]) -> None:
         """Encode no-overlap constraint: intervals don't overlap."""
